@@ -114,7 +114,10 @@ def strategy(draw):
         if draw(st.integers(0, 4)) == 0:
             k = draw(st.integers(1, 3))
             case["nan_at"] = sorted(set(draw(st.lists(st.integers(0, n), min_size=k, max_size=k))))
-        case["shift_m"] = draw(st.integers(-(1 << 12), 1 << 12))
+        # (mostly a few thousand units; sometimes millions of units, where the data's spread is tiny relative to its level -
+        # seeded change C19o compared the extremes with np.isclose and took such a vector for constant)
+        case["shift_m"] = draw(st.one_of(st.integers(-(1 << 12), 1 << 12), st.integers(-(1 << 12), 1 << 12),
+                                         st.sampled_from([1 << 20, -(1 << 22), 1 << 24, 3 << 26])))
         case["scale_pow"] = draw(st.integers(-6, 6))
         case["scale_neg"] = draw(st.booleans())
     else:
